@@ -131,8 +131,10 @@ def run(tier):
                 # (tolerance: outcomes of some pairs depend on Go's map order - over four commits per pair a pair that fails
                 #  under one order in six is counted in one run and not in the next; measured spread 4057..4066 for the largest
                 #  class. 2 % / 10 % of the listed count, at least 5 / 2 pairs)
+                if listed.get(tr) is None:
+                    continue    # not a class of a known finding: every failing pair of it was reported above
                 tol = max(5, listed[tr] // 50) if tier == "thorough" else max(2, listed[tr] // 10)
-                if listed.get(tr) is not None and v > listed[tr] + tol:
+                if v > listed[tr] + tol:
                     run.violation({"kind_change": True, "failing_pairs_beyond_the_known_finding": tr},
                                   {"transitions": tr, "failing_pairs": v, "listed": listed[tr], "example": examples.get(tr + "|error") or examples.get(tr + "|silent")},
                                   "in-place apply fails on %d pairs of the %s whose kind changes are '%s'; the known finding lists %d" % (v, "model universe" if tier == "thorough" else "fixed quick subset of it", tr, listed[tr]))
